@@ -373,6 +373,17 @@ def cmp_c04_code(acc, V, src, fileid, crec, co, opc, insts):
                     break
         acc.mismatch("C04|%s|labels|%s" % (src, culprit), v=vs(V), file=fileid, path=crec["path"],
                      missing=missing[:10], extra=extra[:10])
+    # the package-level findlabels() (exported from xdis itself) must give the same set as the table's own routine
+    try:
+        import xdis
+
+        pub = set(xdis.findlabels(code, opc))
+        acc.count("c04_public_findlabels_calls")
+        if pub != tl:
+            acc.mismatch("C04|%s|labels|xdis.findlabels" % src, v=vs(V), file=fileid, path=crec["path"],
+                         missing=sorted(tl - pub)[:10], extra=sorted(pub - tl)[:10])
+    except Exception as e:
+        acc.mismatch("C04|%s|xdis.findlabels-raises:%s" % (src, type(e).__name__), v=vs(V), file=fileid, path=crec["path"], msg=str(e)[:200])
     exc_targets = set(e[2] for e in (crec.get("exc") or []))
     want_flags = tl | exc_targets
     starts = set(i.offset for i in insts)
